@@ -25,6 +25,7 @@
   use (`FreshCons`); it holds in every state reachable by well-formed requests (`Wf.reach_uniq`).
   Helper lemmas: `Placement.Lemmas.{CoreBase,CoreStep,CoreWrite}`.
 -/
+import Placement.Lemmas.GuardTie
 import Placement.Lemmas.CoreWrite
 
 namespace Placement.Props.C04
